@@ -121,7 +121,7 @@ def dyn_model_results(ctx, jobs):
         if ctx.thorough and k in ("A", "B") and r.coverage0:
             # universe A has no clients: the client actions are necessarily idle there; Bind/BindFail
             # belong to the variant ProbeThenBind = TRUE
-            idle = [a for a in r.coverage0 if not (k == "A" and (a.startswith("Conn") or a in ("ChkInv", "ChkRet", "Drop")))
+            idle = [a for a in r.coverage0 if not (k == "A" and (a.startswith("Conn") or a in ("ChkInv", "ChkRet", "Drop", "Client")))
                     and a not in ("Bind", "BindFail")]
             if idle:
                 ctx.inconclusive("actions never taken in %s: %s" % (what, idle))
@@ -151,7 +151,7 @@ def dyn_gen_jobs(ctx, par, base):
                     rest=rest % (4, "ShapeTunnel")), json_sink=base + ".tun", workers=2, timeout=600)
     sim = par.start(ctx.tlc, "DynListeners_Gen", cfg_text=dyn_cfg(UG, spec="GenSpec", clients='{"k1", "k2"}', nchg=0, nfor=0,
                     rest=rest % (depth, "ShapeAny")), json_sink=base + ".sim",
-                    simulate=ctx.pick(40, 120), depth=depth + 1, seed=ctx.seed, timeout=600)
+                    simulate=ctx.pick(40, 200), depth=depth + 1, seed=ctx.seed, timeout=600)
     return ex, tun, sim, depth
 
 
@@ -169,15 +169,15 @@ def dyn_histories(ctx, jobs, base):
     sim = open(base + ".sim").read().splitlines() if os.path.exists(base + ".sim") else []
     rnd = random.Random(ctx.seed)
     total_ex, total_tun = len(ex), len(tun)
-    cap = ctx.pick(25, 150)
+    cap = ctx.pick(25, 250)
     if len(ex) > cap:
         ex = rnd.sample(ex, cap)
     # tunnels: as many that must survive as that must be torn down
-    half = ctx.pick(6, 30)
+    half = ctx.pick(6, 40)
     br = [ln for ln in tun if '"broken"' in ln]
     al = [ln for ln in tun if '"broken"' not in ln]
     tun = rnd.sample(br, min(half, len(br))) + rnd.sample(al, min(half, len(al)))
-    sim = sim[:ctx.pick(12, 60)]
+    sim = sim[:ctx.pick(12, 100)]
     with open(base, "w") as fh:
         for ln in ex + tun + sim:
             fh.write(ln + "\n")
@@ -190,7 +190,7 @@ def validate_raw(ctx, trace, ptb="FALSE"):
     cfg = open(os.path.join(vf.SPEC, "DynListeners_Trace.cfg")).read().replace("ProbeThenBind = FALSE", "ProbeThenBind = " + ptb)
     if ptb == "TRUE":
         cfg = cfg.replace("INVARIANTS TypeOK Exclusive OnlyWanted", "INVARIANTS TypeOK Exclusive")
-    return ctx.tlc("DynListeners_Trace", cfg_text=cfg, workers=1, env={"VERIF_TRACE": trace}, timeout=ctx.pick(300, 900))
+    return ctx.tlc("DynListeners_Trace", cfg_text=cfg, workers=1, env={"VERIF_TRACE": trace}, timeout=ctx.pick(300, 1200))
 
 
 def judge_trace(ctx, par, s, r, what, sub):
